@@ -302,7 +302,7 @@ func checkICCPng(p *Program, r *Report) {
 			dataOK, why = false, "ICC data and an ICC error are both set"
 		}
 		// events of the last iCCP chunk
-		var cp, zr, cpy, byt *Event
+		var cp, zr, cpy, byt, rall *Event
 		nameLen := int64(0)
 		for k := range o.St.events {
 			ev := &o.St.events[k]
@@ -315,6 +315,28 @@ func checkICCPng(p *Program, r *Report) {
 				cpy = ev
 			case ev.Kind == "call" && ev.Fn == "(*bytes.Buffer).Bytes":
 				byt = ev
+			case ev.Kind == "call" && (ev.Fn == "io.ReadAll" || ev.Fn == "io/ioutil.ReadAll"):
+				rall = ev
+			}
+		}
+		// the read that fed the decompressor (other copies, e.g. skips into io.Discard, are not it)
+		if zr != nil && len(zr.Args) == 1 {
+			var src *Event
+			for k := range o.St.events {
+				ev := &o.St.events[k]
+				if ev.Kind != "copyn" && ev.Kind != "readinto" {
+					continue
+				}
+				if rv, ok := zr.Args[0].(*ReaderVal); ok && rv.S.Data != nil {
+					if valKey(rv.S.Data) == valKey(ev.Recv) {
+						src = ev
+					}
+				} else if valKey(zr.Args[0]) == valKey(ev.Recv) {
+					src = ev
+				}
+			}
+			if src != nil {
+				cp = src
 			}
 		}
 		if cp != nil {
@@ -329,7 +351,7 @@ func checkICCPng(p *Program, r *Report) {
 		}
 		if hasData {
 			nData++
-			good := cp != nil && zr != nil && cpy != nil && byt != nil && nameLen >= 0 && nameLen <= 79
+			good := cp != nil && zr != nil && ((cpy != nil && byt != nil) || rall != nil) && nameLen >= 0 && nameLen <= 79
 			if good {
 				t := iccTag.Off
 				L := e.beU32(t.Sub(formInt(4)))
@@ -359,11 +381,17 @@ func checkICCPng(p *Program, r *Report) {
 						good = valKey(src) == valKey(cp.Recv)
 					}
 					zres, _ := zr.Res.(Tuple)
-					good = good && len(zres) == 2 && len(cpy.Args) == 2 && valKey(cpy.Args[1]) == valKey(zres[0]) && valKey(byt.Args[0]) == valKey(cpy.Args[0])
 					sv, _ := md.ICCData.(*SliceVal)
-					good = good && sv != nil && sv.Base != nil && len(sv.Base.Args) == 1 && valKey(sv.Base.Args[0]) == valKey(cpy.Args[0])
+					if cpy != nil && byt != nil {
+						good = good && len(zres) == 2 && len(cpy.Args) == 2 && valKey(cpy.Args[1]) == valKey(zres[0]) && valKey(byt.Args[0]) == valKey(cpy.Args[0])
+						good = good && sv != nil && sv.Base != nil && len(sv.Base.Args) == 1 && valKey(sv.Base.Args[0]) == valKey(cpy.Args[0])
+					} else {
+						// io.ReadAll(zlib reader): the returned slice itself
+						rres, _ := rall.Res.(Tuple)
+						good = good && len(zres) == 2 && len(rall.Args) == 1 && valKey(rall.Args[0]) == valKey(zres[0]) && len(rres) == 2 && valKey(md.ICCData) == valKey(rres[0])
+					}
 					if !good {
-						why = "the returned bytes are not Bytes() of the buffer io.Copy filled from zlib.NewReader over the chunk payload"
+						why = "the returned bytes are not what was read to the end (io.Copy into a buffer + Bytes(), or io.ReadAll) from zlib.NewReader over the chunk payload"
 					}
 				}
 				// both errors nil on this path
@@ -371,7 +399,7 @@ func checkICCPng(p *Program, r *Report) {
 					nilConds := 0
 					for _, c := range o.St.conds {
 						k := c.Key()
-						if c.Op == "==" && strings.Contains(k, "nil-error") && (strings.Contains(k, "zlib.NewReader#1") || strings.Contains(k, "io.Copy#1")) {
+						if c.Op == "==" && strings.Contains(k, "nil-error") && (strings.Contains(k, "zlib.NewReader#1") || strings.Contains(k, "io.Copy#1") || strings.Contains(k, "io.ReadAll#1") || strings.Contains(k, "ioutil.ReadAll#1")) {
 							nilConds++
 						}
 					}
@@ -389,7 +417,7 @@ func checkICCPng(p *Program, r *Report) {
 			nErr++
 			// error must be zlib's or io.Copy's
 			k := valKey(md.ICCErr)
-			if !strings.Contains(k, "zlib.NewReader#1") && !strings.Contains(k, "io.Copy#1") {
+			if !strings.Contains(k, "zlib.NewReader#1") && !strings.Contains(k, "io.Copy#1") && !strings.Contains(k, "ReadAll#1") {
 				errOK, why = false, "the recorded ICC error is "+trunc(k, 80)+", not the decompression error"
 			}
 			if !md.OK {
